@@ -19,6 +19,7 @@ struct Profile {
     int quick_s = 40, thorough_s = 600;
     bool use_asan_in_thorough = true;
     bool exhaustive = false;
+    long space_seeds = 0;      // >0: seeds 1..space_seeds enumerate a finite space completely (the check reports exhaustive=true once all were run)
 };
 
 const Profile *find_profile(const std::string &id);
